@@ -42,7 +42,7 @@ PROPS["C11"] = dict(
                 "op_a32-write": 150000, "op_a32-read": 150000, "op_data-nobypass": 100000}},
     ready=True,
     technique="runtime monitoring: byte-array reference model of the shared memory compared through every host and guest view of "
-              "the real Teakra facade after each operation",
+              "the real Teakra facade after each operation; window twin vs relocated-window twin under the memory observer for every instruction handler; C binding vs C++ facade twin",
     level_text="Exploration: seeded random histories interleaving all host accessors, the raw pointer and interpreter-executed "
                "loads/stores/fetches on the real facade; every touched cell is compared through all views against a byte-array "
                "model; decides the property only for the histories produced (counts in evidence).",
